@@ -13,6 +13,24 @@ CHECKS = {
          "DESIGN.md §4 C12"),
 }
 
+CHECKS.update({
+ "C10": ("E1-choice-tree",
+         "exhaustive value-space enumeration on the real Encoder/Decoder against an independent bit-level wire-format reference",
+         "Every value of the small fixed-width types, every variable-width value below the magnitude bound and around every power of two / range limit from every source width into every target width, every Unicode scalar as a string, all collection shapes up to a leaf bound are encoded by the real encoder into growable and exactly-sized targets, compared byte for byte with a u128 reference of the wire format, decoded back and checked for exact consumption. Exhaustive below the stated bounds; this is the level the property's own quantifier asks for.",
+         "trusted: the wire-format reference in mc/src/refcodec.rs (written from the statement and the public encoding documentation); f64 and 32/64-bit integers are covered at boundaries only; collections >= 2^30 elements are not materialised",
+         "DESIGN.md §4 C10"),
+ "C11": ("E1-choice-tree",
+         "exhaustive enumeration of all short byte strings x all decodable types on the real decoder against a reference decoder, with allocation accounting, in crash-isolated workers",
+         "All byte strings up to the length bound, the announced-size family and every truncation / single-byte substitution of valid encodings are decoded by the real decoder for 35 types (including the generator-reply types compiled from /repo/slicec/src/definition_types.rs); Ok/Err, value and consumed prefix must agree with an independent reference decoder, every error must render, and bytes allocated per decode (counted by the harness allocator) must be governed by the input length.",
+         "trusted: the reference decoder in mc/src/refcodec.rs; the memory bound 256*len+4KiB is the harness' reading of 'governed by the length of the input'; byte strings longer than the bound are covered only through the corruption and announced-size families",
+         "DESIGN.md §4 C11"),
+ "C19": ("E1-choice-tree",
+         "exhaustive enumeration of all short specification strings through the real clap command line against a reference parser; exhaustive round-trip products",
+         "Every string up to the length bound over the syntax-relevant alphabet is parsed through the real command-line definition and compared (accept/reject, path, pairs, order) with a reference parser written from the statement; every bounded (path, arguments) value is rendered through the escaping function and must parse back exactly; repeated -G options keep their order.",
+         "trusted: the reference parser in mc/src/props/c19.rs; characters outside the alphabet are represented by 'b', tab, 'é' and '\"'",
+         "DESIGN.md §4 C19"),
+})
+
 NOT_YET = {}
 
 def main():
